@@ -549,6 +549,99 @@ func propC11Seq(c c11Seq) hh.Verdict {
 	return hh.Verdict{Nontrivial: true, Classes: []string{"fe:" + c.FE}}
 }
 
+type c11OneOf struct {
+	Kind string `json:"kind"` // string | int
+	Edit string `json:"edit"`
+	Mode string `json:"mode"`
+}
+
+func propC11OneOf(c c11OneOf) hh.Verdict {
+	run := func(build func() (verdict func(subject int) (failed bool, listed []string))) hh.Verdict {
+		verdict := build()
+		_, listed := verdict(99) // 99 / "99" is in no version of the list: the issue says which list the test uses
+		if listed == nil {
+			return hh.Fail("OneOf (%s, %s, %s): a value outside every version of the list was accepted", c.Kind, c.Edit, c.Mode)
+		}
+		in := map[string]bool{}
+		for _, l := range listed {
+			in[l] = true
+		}
+		for subject := 1; subject <= 9; subject++ {
+			failed, l2 := verdict(subject)
+			if failed && fmt.Sprint(l2) != fmt.Sprint(listed) {
+				return hh.Fail("OneOf (%s, %s, %s): two issues of one test report different option lists: %v and %v", c.Kind, c.Edit, c.Mode, listed, l2)
+			}
+			if failed == in[fmt.Sprint(subject)] {
+				return hh.Fail("OneOf (%s, %s, %s): value %d rejected=%v, but the issue of this test reports the options %v", c.Kind, c.Edit, c.Mode, subject, failed, listed)
+			}
+		}
+		return hh.Verdict{Nontrivial: c.Edit != "none", Classes: []string{"edit:" + c.Edit, "kind:" + c.Kind, "mode:" + c.Mode}}
+	}
+	edit := func(n int, set func(i, v int), app func(v int)) {
+		switch c.Edit {
+		case "replace-last":
+			set(n-1, 7)
+		case "replace-first":
+			set(0, 8)
+		case "append-into-capacity":
+			app(6)
+		}
+	}
+	options := func(is *z.ZogIssue) []string {
+		var out []string
+		rv := reflect.ValueOf(is.Params["one_of_options"])
+		if !rv.IsValid() || rv.Kind() != reflect.Slice {
+			return []string{"<no one_of_options param>"}
+		}
+		for i := 0; i < rv.Len(); i++ {
+			out = append(out, fmt.Sprint(rv.Index(i).Interface()))
+		}
+		return out
+	}
+	if c.Kind == "string" {
+		return run(func() func(int) (bool, []string) {
+			opts := make([]string, 3, 8)
+			copy(opts, []string{"1", "2", "3"})
+			s := z.String().OneOf(opts)
+			edit(3, func(i, v int) { opts[i] = fmt.Sprint(v) }, func(v int) { _ = append(opts, fmt.Sprint(v)) })
+			return func(subject int) (bool, []string) {
+				v := fmt.Sprint(subject)
+				var iss z.ZogIssueList
+				if c.Mode == "parse" {
+					var d string
+					iss = s.Parse(v, &d)
+				} else {
+					iss = s.Validate(&v)
+				}
+				if len(iss) == 0 {
+					return false, nil
+				}
+				return true, options(iss[0])
+			}
+		})
+	}
+	return run(func() func(int) (bool, []string) {
+		opts := make([]int, 3, 8)
+		copy(opts, []int{1, 2, 3})
+		s := z.Int().OneOf(opts)
+		edit(3, func(i, v int) { opts[i] = v }, func(v int) { _ = append(opts, v) })
+		return func(subject int) (bool, []string) {
+			v := subject
+			var iss z.ZogIssueList
+			if c.Mode == "parse" {
+				var d int
+				iss = s.Parse(v, &d)
+			} else {
+				iss = s.Validate(&v)
+			}
+			if len(iss) == 0 {
+				return false, nil
+			}
+			return true, options(iss[0])
+		}
+	})
+}
+
 func TestC11(t *testing.T) {
 	h := hh.Start(t, "C11",
 		"Part A (exhaustive): every built-in test of every schema type (string 14 + 12 negated, numbers 6 x 5 widths, bool 3, time 3, slice 4+1), required (9 types), not_nil (pointer to 10 types), coerce (9 types), invalid_json (zjson and zhttp, 5 bodies) and invalid_form (3 bodies) x mode x formatter configuration {default, i18n with lang en / es / es-MX (regional key) / none / unknown, i18n with a configured context key (WithLangKey)}; each cell constructs a failing input and inspects the single resulting issue; every cell is non-trivial and distinct. Part B (random): generated schemas/inputs x formatter configurations with a distinguishable marker per level; non-trivial = an issue for which >=2 levels were configured",
@@ -566,6 +659,17 @@ func TestC11(t *testing.T) {
 			}
 		})
 	}, propC11Cell)
+	// "fully described": the list a one_of issue reports is the list the test decides by, also when the caller edited
+	// its option slice after building the schema (in place, or through an append into spare capacity)
+	hh.Enumerate(h, "oneof-options-edited", func(yield func(c11OneOf)) {
+		for _, kind := range []string{"string", "int"} {
+			for _, edit := range []string{"none", "replace-last", "replace-first", "append-into-capacity"} {
+				for _, mode := range modes {
+					yield(c11OneOf{Kind: kind, Edit: edit, Mode: mode})
+				}
+			}
+		}
+	}, propC11OneOf)
 	hh.Enumerate(h, "decode-failure-sequences", func(yield func(c11Seq)) {
 		for _, ptr := range []bool{false, true} {
 			for _, fe := range []string{"zjson", "zhttp-json"} {
